@@ -264,6 +264,9 @@ func cmdDICases(args []string) error {
 									fail("inject-field", inner, fmt.Sprintf("step %d field %d (%v) was set to %+v although its resolution %s", i, j, h.Fields[j], vals[j], map[bool]string{true: "never happened", false: "failed"}[want == nil]))
 									ok = false
 								}
+							case !fieldsOk && vals[j] == nil:
+								// the request as a whole failed: the statement fixes what a request YIELDS, not what a failed
+								// InjectTo leaves in the object -- a field resolved before the failure may be stored or not
 							default:
 								if vals[j] == nil || vals[j].Tag != want.Tag || vals[j].Name != h.Fields[j].T {
 									fail("inject-field", inner, fmt.Sprintf("step %d field %d (%v) holds %+v, specification: instance from %q", i, j, h.Fields[j], vals[j], want.Tag))
